@@ -220,10 +220,7 @@ def run(run_, pkg, tier):
         structural_view_rule(run_, pkg)
         # Q2: during optimization vertex poses change only through boxplus (pose += dx[...]) -- unit in, unit out by Q1
         from .. import optim_rules
-        oa = optim_rules.analyse(pkg)
-        n = 0
-        for f in oa.findings:
-            if f.key.startswith(("C03-d/update-step", "C03-d/no-other-pose-write", "C03-d/update-loop-extra", "C03-d/update-present")):
-                n += 1
-                run_.check(f.ok, "C11-Q2/" + f.key, "C11-Q2-optimizer-updates-by-boxplus", f.what, where=f.where)
+        n = optim_rules.optimize_verdicts(run_, pkg, "C11", lambda f: ("C11-Q2/" + f.key, "C11-Q2-optimizer-updates-by-boxplus")
+                                          if f.key.startswith(("C03-d/update-step", "C03-d/no-other-pose-write", "C03-d/update-loop-extra", "C03-d/update-present")) else None,
+                                          rule_sem="C11-Q2-optimizer-updates-by-boxplus")
         run_.floor("C11-Q2 rule instances", n, 2)
